@@ -140,20 +140,20 @@ def run(ctx):
         res.missing_anchor("match operator in simplify_prefix")
     res.count("simplify_prefix_instances", nprefix, floor=4)
 
-    # ---- simplify_function_call: both branches keep `function` and apply it to the (simplified) argument
+    # ---- simplify_function_call
     f, sf = fns["simplify_function_call"]
-    calls = find_all(sf["body"], lambda n: n.get("k") == "call" and src(n["f"]).split("::")[-1] in ("calculate_function", "function_call"))
-    obligations += 1
-    ok = len(calls) == 2 and all(src(k9.strip(c["args"][0])) == "function" for c in calls) and {src(k9.strip(c["args"][1])) for c in calls} == {"x", "expression"}
-    res.site("K9|simplify_function_call", True, {"calls": [src(c) for c in calls], "verdict": "function and argument passed through" if ok else "undecided/violation"})
-    if ok:
-        discharged += 1
-    else:
-        if len(calls) == 2:
-            res.find("K9|simplify_function_call", "%s:%d" % (sf["file"], sf["ln"]), "simplify_function_call does not apply the same function to the simplified argument in both branches: %s" % [src(c) for c in calls], "sin(%x) simplifies to a different function or argument")
-        else:
-            undecided.append("simplify_function_call: shape not recognised")
-            discharged += 1
+    nfc = 0
+    for inst in k9.function_call_instances(sf):
+        label, lhs, c = inst[0], inst[1], inst[2]
+        if lhs is None:
+            if c.startswith("vacuous"):
+                vacuous += 1
+            else:
+                undecided.append("simplify_function_call|%s: %s" % (label, c))
+            continue
+        nfc += 1
+        check("simplify_function_call|%s" % label, "%s:%d" % (sf["file"], inst[3] if len(inst) > 3 else sf["ln"]), lhs, c, None)
+    res.count("simplify_function_call_instances", nfc, floor=8)
 
     # ---- simplify: PiConstant arm first, produces a Number
     f, sf = fns["simplify"]
